@@ -110,6 +110,39 @@ Definition enc_addr_table (le : bool) (asz : nat) (tbl : list Z) : list Z :=
 Definition wf_addr_table (asz : nat) (tbl : list Z) : bool := forallb (in_addr asz) tbl.
 Definition wf_index (ntbl : Z) (u : ulebv) : bool := (0 <=? fst u) && (fst u <? ntbl).
 
+(* an operand of a v5 entry: kind and value; the name is the one under which the library's
+   untranslated ("_ex") view reports it *)
+Inductive opval : Type :=
+| VUleb (u : ulebv)          (* unsigned LEB128 *)
+| VAddr (a : Z)              (* target address, address_size bytes *)
+| VCounted (c : counted).    (* counted location description *)
+Definition enc_opval (le : bool) (asz : nat) (v : opval) : list Z :=
+  match v with
+  | VUleb u => enc_uleb u
+  | VAddr a => int_encode le asz a
+  | VCounted c => enc_counted c
+  end.
+Definition wf_opval (asz : nat) (v : opval) : bool :=
+  match v with
+  | VUleb u => wf_uleb u
+  | VAddr a => in_addr asz a
+  | VCounted c => wf_counted c
+  end.
+Definition opval_kind (v : opval) : opkind :=
+  match v with VUleb _ => OUleb | VAddr _ => OAddr | VCounted _ => OCounted end.
+Definition opval_fval (v : opval) : fval :=
+  match v with VUleb u => FInt (fst u) | VAddr a => FInt a | VCounted c => FBytes (snd c) end.
+Definition named_ops := list (string * opval).
+
+(* kind code, then the operands in order *)
+Definition enc_entry (le : bool) (asz : nat) (code : Z) (ops : named_ops) : list Z :=
+  code :: concat (map (fun o => enc_opval le asz (snd o)) ops).
+(* the untranslated view of an entry placed at off and len bytes long *)
+Definition raw_entry (off len : Z) (name : string) (ops : named_ops) : container :=
+  (("entry_offset", FInt off) :: ("entry_type", FStr name)
+   :: map (fun o => (fst o, opval_fval (snd o))) ops)
+  ++ [("entry_end_offset", FInt (off + len)); ("entry_length", FInt len)].
+
 (* ---- DW_LLE_* (DWARF 5 §7.7.3, Table 7.10) *)
 Inductive lle : Type :=
 | LBaseAddressx (i : ulebv)
@@ -135,18 +168,18 @@ Definition lle_name (x : lle) : string :=
   | LStartEnd _ _ _ => "DW_LLE_start_end" | LStartLength _ _ _ => "DW_LLE_start_length"
   end.
 
-Definition enc_lle_operands (le : bool) (asz : nat) (x : lle) : list Z :=
+Definition lle_ops (x : lle) : named_ops :=
   match x with
-  | LBaseAddressx i => enc_uleb i
-  | LStartxEndx i j c => enc_uleb i ++ enc_uleb j ++ enc_counted c
-  | LStartxLength i n c => enc_uleb i ++ enc_uleb n ++ enc_counted c
-  | LOffsetPair b e c => enc_uleb b ++ enc_uleb e ++ enc_counted c
-  | LDefaultLocation c => enc_counted c
-  | LBaseAddress a => int_encode le asz a
-  | LStartEnd s e c => int_encode le asz s ++ int_encode le asz e ++ enc_counted c
-  | LStartLength s n c => int_encode le asz s ++ enc_uleb n ++ enc_counted c
+  | LBaseAddressx i => [("index", VUleb i)]
+  | LStartxEndx i j c => [("start_index", VUleb i); ("end_index", VUleb j); ("loc_expr", VCounted c)]
+  | LStartxLength i n c => [("start_index", VUleb i); ("length", VUleb n); ("loc_expr", VCounted c)]
+  | LOffsetPair b e c => [("start_offset", VUleb b); ("end_offset", VUleb e); ("loc_expr", VCounted c)]
+  | LDefaultLocation c => [("loc_expr", VCounted c)]
+  | LBaseAddress a => [("address", VAddr a)]
+  | LStartEnd s e c => [("start_address", VAddr s); ("end_address", VAddr e); ("loc_expr", VCounted c)]
+  | LStartLength s n c => [("start_address", VAddr s); ("length", VUleb n); ("loc_expr", VCounted c)]
   end.
-Definition enc_lle (le : bool) (asz : nat) (x : lle) : list Z := lle_code x :: enc_lle_operands le asz x.
+Definition enc_lle (le : bool) (asz : nat) (x : lle) : list Z := enc_entry le asz (lle_code x) (lle_ops x).
 Definition enc_lle_list (le : bool) (asz : nat) (l : list lle) : list Z :=
   concat (map (enc_lle le asz) l) ++ [DW_LLE_end_of_list].
 
@@ -206,17 +239,17 @@ Definition rle_name (x : rle) : string :=
   | RStartLength _ _ => "DW_RLE_start_length"
   end.
 
-Definition enc_rle_operands (le : bool) (asz : nat) (x : rle) : list Z :=
+Definition rle_ops (x : rle) : named_ops :=
   match x with
-  | RBaseAddressx i => enc_uleb i
-  | RStartxEndx i j => enc_uleb i ++ enc_uleb j
-  | RStartxLength i n => enc_uleb i ++ enc_uleb n
-  | ROffsetPair b e => enc_uleb b ++ enc_uleb e
-  | RBaseAddress a => int_encode le asz a
-  | RStartEnd s e => int_encode le asz s ++ int_encode le asz e
-  | RStartLength s n => int_encode le asz s ++ enc_uleb n
+  | RBaseAddressx i => [("index", VUleb i)]
+  | RStartxEndx i j => [("start_index", VUleb i); ("end_index", VUleb j)]
+  | RStartxLength i n => [("start_index", VUleb i); ("length", VUleb n)]
+  | ROffsetPair b e => [("start_offset", VUleb b); ("end_offset", VUleb e)]
+  | RBaseAddress a => [("address", VAddr a)]
+  | RStartEnd s e => [("start_address", VAddr s); ("end_address", VAddr e)]
+  | RStartLength s n => [("start_address", VAddr s); ("length", VUleb n)]
   end.
-Definition enc_rle (le : bool) (asz : nat) (x : rle) : list Z := rle_code x :: enc_rle_operands le asz x.
+Definition enc_rle (le : bool) (asz : nat) (x : rle) : list Z := enc_entry le asz (rle_code x) (rle_ops x).
 Definition enc_rle_list (le : bool) (asz : nat) (l : list rle) : list Z :=
   concat (map (enc_rle le asz) l) ++ [DW_RLE_end_of_list].
 
@@ -250,19 +283,8 @@ Definition rle_meaning (le : bool) (asz : nat) (tbl : list Z) (pos : Z) (l : lis
   layout_tups (enc_rle le asz) (rle_tup tbl) pos l.
 
 (* ---- the untranslated ("_ex") view of a range list entry: kind name and raw operands *)
-Definition rle_raw_fields (x : rle) : container :=
-  match x with
-  | RBaseAddressx i => [("index", FInt (fst i))]
-  | RStartxEndx i j => [("start_index", FInt (fst i)); ("end_index", FInt (fst j))]
-  | RStartxLength i n => [("start_index", FInt (fst i)); ("length", FInt (fst n))]
-  | ROffsetPair b e => [("start_offset", FInt (fst b)); ("end_offset", FInt (fst e))]
-  | RBaseAddress a => [("address", FInt a)]
-  | RStartEnd s e => [("start_address", FInt s); ("end_address", FInt e)]
-  | RStartLength s n => [("start_address", FInt s); ("length", FInt (fst n))]
-  end.
-Definition rle_raw (off len : Z) (x : rle) : container :=
-  (("entry_offset", FInt off) :: ("entry_type", FStr (rle_name x)) :: rle_raw_fields x)
-  ++ [("entry_end_offset", FInt (off + len)); ("entry_length", FInt len)].
+Definition rle_raw (off len : Z) (x : rle) : container := raw_entry off len (rle_name x) (rle_ops x).
+Definition lle_raw (off len : Z) (x : lle) : container := raw_entry off len (lle_name x) (lle_ops x).
 
 Section RawLayout.
   Context {A : Type} (enc : A -> list Z) (mean : Z -> Z -> A -> container).
@@ -274,6 +296,8 @@ Section RawLayout.
 End RawLayout.
 Definition rle_raw_meaning (le : bool) (asz : nat) (pos : Z) (l : list rle) : list container :=
   layout_raw (enc_rle le asz) rle_raw pos l.
+Definition lle_raw_meaning (le : bool) (asz : nat) (pos : Z) (l : list lle) : list container :=
+  layout_raw (enc_lle le asz) lle_raw pos l.
 
 (* ---- location view pairs (GNU extension, binutils layout: the pairs immediately precede their list) *)
 Definition viewpair := (ulebv * ulebv)%type.
@@ -429,3 +453,22 @@ Definition std_classify (v : Z) (name form : string) : option lclass :=
   else None.
 
 Definition VERSIONS : list Z := [2; 3; 4; 5].
+
+(* ================================================================== the standard's tables as data,
+   in the vocabulary of Model/C07Kinds.v (compared with the regenerated Gen/C07Tables.v) *)
+(* DWARF 5 Table 7.10 *)
+Definition spec_ENUM_DW_LLE : list (string * Z) :=
+  [("DW_LLE_end_of_list", 0x00); ("DW_LLE_base_addressx", 0x01); ("DW_LLE_startx_endx", 0x02);
+   ("DW_LLE_startx_length", 0x03); ("DW_LLE_offset_pair", 0x04); ("DW_LLE_default_location", 0x05);
+   ("DW_LLE_base_address", 0x06); ("DW_LLE_start_end", 0x07); ("DW_LLE_start_length", 0x08)].
+(* DWARF 5 Table 7.30 *)
+Definition spec_ENUM_DW_RLE : list (string * Z) :=
+  [("DW_RLE_end_of_list", 0x00); ("DW_RLE_base_addressx", 0x01); ("DW_RLE_startx_endx", 0x02);
+   ("DW_RLE_startx_length", 0x03); ("DW_RLE_offset_pair", 0x04); ("DW_RLE_base_address", 0x05);
+   ("DW_RLE_start_end", 0x06); ("DW_RLE_start_length", 0x07)].
+(* DWARF 5 §7.28 / §7.29: unit_length, version (2), address_size (1), segment_selector_size (1),
+   offset_entry_count (4); the library also records the offsets at which the fields start *)
+Definition spec_list_header : hlayout :=
+  [("cu_offset", HStreamOffset); ("unit_length", HInitialLength); ("is64", HIs64);
+   ("offset_after_length", HStreamOffset); ("version", HUInt 2); ("address_size", HUInt 1);
+   ("segment_selector_size", HUInt 1); ("offset_count", HUInt 4); ("offset_table_offset", HStreamOffset)].
